@@ -124,13 +124,17 @@ func normID(txt string) string {
 }
 
 func idText(id, v int) string {
-	switch v % 4 {
+	switch v % 6 {
 	case 1:
 		return fmt.Sprintf(`"%d"`, id)
 	case 2:
 		return fmt.Sprintf(`"id %d <&>"`, id)
 	case 3:
 		return fmt.Sprintf(`%d.5`, id)
+	case 4: // characters that mean something to formatting and quoting code: the id comes back as it was sent all the same
+		return fmt.Sprintf(`"%d%%d 100%%%% \\ \" \u00e9"`, id)
+	case 5:
+		return fmt.Sprintf(`"%%s%%v%d"`, id)
 	}
 	return strconv.Itoa(id)
 }
